@@ -180,6 +180,8 @@ def plan(tier, seed):
     pl = Plan("C09", "proof")
     pl.cases = eq_cases() + clone_cases()
     pl.canaries = [canary()]
+    from vfkit import lean as _leanc
+    pl.finite = list(getattr(pl, 'finite', None) or []) + [("A6/Lean re-check of the composition lemmas L-IND", _leanc.compose_check('L-IND'))]
     pl.functions = ["luqum.tree.Item.__eq__", "luqum.tree.Item.clone_item", "luqum.tree.Item._clone_item",
                     "luqum.tree.Item.children", "luqum.tree.BaseOperation.children"]
     ntok = 4 if tier == "quick" else 5
@@ -194,7 +196,7 @@ def plan(tier, seed):
     pl.lemmas = ["L-EQ: by C09-E, a == b <=> FP(a) = FP(b) where FP is the fingerprint term built from the spec lists "
                  "(written from the property statement, independent of _equality_attrs); equality of terms of an "
                  "algebraic datatype is reflexive, symmetric and transitive, and is structural",
-                 "L-IND (paper): the per-class step with children stubbed by the same contract gives the statement "
+                 "L-IND (Lean: lemmas/Compose.lean fold_ind; model link assumed): the per-class step with children stubbed by the same contract gives the statement "
                  "for all finite trees", "L-Z (Lean): all2/zip over appended lists of equal lengths splits"]
     pl.claim = ("for every ordered pair of node classes (operand shapes 0, 1, 2, 2+run; implicit/explicit numerals) the "
                 "real Item.__eq__ returns exactly FP(self) = FP(other) on every path with layout and names poisoned; "
